@@ -106,6 +106,16 @@ Proof. repeat split. Qed.
 Lemma tie_transmutes_count : length gen_transmutes = 14%nat.
 Proof. reflexivity. Qed.
 
+(* ---- impl_tuple!: both conversions are safe destructurings -- the tuple is taken apart into the
+        bindings $t.. and rebuilt as the array literal [$t..] through from_array, the array is turned
+        into a native array by into_array, taken apart into the same bindings and rebuilt as the tuple:
+        positions are kept by the repetition order, every element moves exactly once ---- *)
+Lemma tie_tuple_bodies :
+  gen_tuple_bodies =
+  ("let ($ ($ t ,) *) = tuple ; GenericArray :: from_array ([$ ($ t ,) *])",
+   "let [$ ($ t) ,*] = array . into_array () ; ($ ($ t ,) *)").
+Proof. reflexivity. Qed.
+
 (* ---- the inverse bounds of Lengthen / Shorten as they stand in the trait declarations ---- *)
 Definition inverse_eq_of (tr : string) : bool :=
   match find (fun r => String.eqb (fst (fst (fst r))) tr) gen_inverse_bounds with
